@@ -930,6 +930,19 @@ func (this *encodingTask) encode(res *encodingTaskResult) {
 	obs.Close()
 	written := obs.Written()
 
+	if nbBytes := int((written + 7) >> 3); nbBytes <= cap(data) {
+		data = data[0:nbBytes]
+	} else {
+		// The entropy coder expanded the block beyond the local buffer: the
+		// buffer stream had to grow and no longer shares its storage with data
+		data = make([]byte, nbBytes)
+
+		if _, err = bufStream.Read(data); err != nil {
+			res.err = &IOError{msg: err.Error(), code: kanzi.ERR_PROCESS_BLOCK}
+			return
+		}
+	}
+
 	if len(this.listeners) > 0 {
 		// Notify after entropy
 		evt := kanzi.NewEvent(kanzi.EVT_AFTER_ENTROPY, int(this.currentBlockID),
